@@ -154,45 +154,65 @@ def _json_safe(v):
         return {"__repr__": repr(v)[:80]}
 
 
-async def _serve_one(handler, d, session_id=None, want_sid=False):
-    """One message (a dict, or an already parsed message object) through the real handler; observation of the answer and of
-    the session."""
-    from chuk_mcp.protocol.messages.json_rpc_message import parse_message
-
+def _read_answer(resp):
+    """What the response object says NOW (it is serialised the way a transport does: model_dump)."""
     obs = {}
-    try:
-        msg = parse_message(d) if isinstance(d, dict) else d
-    except Exception as ex:
-        return {"kind": "unparsable", "exc": type(ex).__name__}, None
-    try:
-        resp, sid = await (handler.handle_message(msg) if session_id is None else handler.handle_message(msg, session_id))
-    except Exception as ex:
-        return {"kind": "raised", "exc": type(ex).__name__}, None
     out = None
     if resp is None:
         obs["kind"] = "none"
+        return obs, out
+    out = resp.model_dump(exclude_none=True) if hasattr(resp, "model_dump") else resp
+    if isinstance(out, dict) and "error" in out and out.get("error") is not None:
+        obs["kind"] = "error"
+        obs["code"] = (out["error"] or {}).get("code")
     else:
-        out = resp.model_dump(exclude_none=True) if hasattr(resp, "model_dump") else resp
-        if isinstance(out, dict) and "error" in out and out.get("error") is not None:
-            obs["kind"] = "error"
-            obs["code"] = (out["error"] or {}).get("code")
+        obs["kind"] = "result"
+        # exclude_none drops a null member: read the member off a full dump / the object itself
+        full = resp.model_dump() if hasattr(resp, "model_dump") else out
+        res = full.get("result") if isinstance(full, dict) else getattr(resp, "result", None)
+        if isinstance(res, dict):
+            obs["has_version"] = "protocolVersion" in res
+            obs["answered"] = _json_safe(res.get("protocolVersion"))
         else:
-            obs["kind"] = "result"
-            # exclude_none drops a null member: read the member off the object itself
-            res = getattr(resp, "result", None)
-            if isinstance(res, dict):
-                obs["has_version"] = "protocolVersion" in res
-                obs["answered"] = _json_safe(res.get("protocolVersion"))
-            else:
-                obs["has_version"] = False
-                obs["answered"] = None
+            obs["has_version"] = False
+            obs["answered"] = None
+    return obs, out
+
+
+def _read_session(handler, sid):
+    if sid is None:
+        return None
+    return handler.session_manager.get_session(sid)
+
+
+async def _call_handler(handler, d, session_id=None):
+    """-> (message object | None, response, session id, error observation | None)"""
+    from chuk_mcp.protocol.messages.json_rpc_message import parse_message
+
+    try:
+        msg = parse_message(d) if isinstance(d, dict) else d
+    except Exception as ex:
+        return None, None, None, {"kind": "unparsable", "exc": type(ex).__name__}
+    try:
+        resp, sid = await (handler.handle_message(msg) if session_id is None else handler.handle_message(msg, session_id))
+    except Exception as ex:
+        return msg, None, None, {"kind": "raised", "exc": type(ex).__name__}
+    return msg, resp, sid, None
+
+
+async def _serve_one(handler, d, session_id=None, want_sid=False):
+    """One message (a dict, or an already parsed message object) through the real handler; observation of the answer and of
+    the session, read right away."""
+    _msg, resp, sid, err = await _call_handler(handler, d, session_id)
+    if err is not None:
+        return err, None
+    obs, out = _read_answer(resp)
     obs["has_session"] = False
     obs["sid"] = sid
-    if sid is not None:
-        s = handler.session_manager.get_session(sid)
-        if s is not None:
-            obs["has_session"] = True
-            obs["session"] = _json_safe(s.protocol_version)
+    s = _read_session(handler, sid)
+    if s is not None:
+        obs["has_session"] = True
+        obs["session"] = _json_safe(s.protocol_version)
     return obs, out
 
 
@@ -221,7 +241,12 @@ def run_server_seq(cases):
       between  other traffic on the handler before this step: "ping" | "unknown-method" | "initialized" | "unknown-notification"
                (each on the carried session if there is one)
       same_object  the very message object of the previous step is delivered again (a duplicated message)
-    Per step: the answer, and what the store holds under the session id returned for THAT step, read right after it."""
+    Case members: "read": "both" (default: every answer / session is read right after its step AND again after the whole
+    sequence) | "late" (the harness only holds on to the response objects and reads all of them after the whole sequence, like a
+    server loop that handles the pending requests and then flushes the answers); "concurrent": every request is handed to the
+    handler from its own task (a task group) before any answer is looked at.
+    Per step: the answer, and what the store holds under the session id returned for THAT step, read right after it; under
+    "late" the same read after the last step (also the session record object handed out right after the step)."""
     import asyncio
     from chuk_mcp.protocol.messages.json_rpc_message import parse_message
 
@@ -232,13 +257,28 @@ def run_server_seq(cases):
         "unknown-notification": {"jsonrpc": "2.0", "method": "notifications/verif-unknown", "params": {}},
     }
 
-    async def main():
-        out = []
-        for c in cases:
-            handler = _new_handler()
-            sm = handler.session_manager
-            sids, steps = [], []
-            last_msg = None
+    async def one_case(c):
+        handler = _new_handler()
+        sm = handler.session_manager
+        sids, steps, held = [], [], []
+        last_msg = None
+        read_now = c.get("read", "both") == "both"
+        if c.get("concurrent"):
+            # every request is handed to the handler from its own task before any answer is looked at
+            msgs = [parse_message(init_request_dict(st["req"], msg_id=f"init-{i}")) for i, st in enumerate(c["steps"])]
+            results = [None] * len(msgs)
+
+            async def run(i):
+                results[i] = await _call_handler(handler, msgs[i])
+
+            import anyio
+            async with anyio.create_task_group() as tg:
+                for i in range(len(msgs)):
+                    tg.start_soon(run, i)
+            for (_m, resp, sid, err) in results:
+                steps.append(dict(err) if err else {"carried": None})
+                held.append((resp, sid, None, err))
+        else:
             for i, st in enumerate(c["steps"]):
                 carry = st.get("carry")
                 sid_in = None
@@ -269,16 +309,51 @@ def run_server_seq(cases):
                     except Exception:
                         pass
                 last_msg = d
-                o, _ = await _serve_one(handler, d, session_id=sid_in, want_sid=True)
+                _m, resp, sid, err = await _call_handler(handler, d, session_id=sid_in)
+                o = dict(err) if err else {}
+                sess_obj = None
+                if not err and read_now:
+                    o, _ = _read_answer(resp)
+                    sess_obj = _read_session(handler, sid)
+                    o["has_session"] = sess_obj is not None
+                    if sess_obj is not None:
+                        o["session"] = _json_safe(sess_obj.protocol_version)
                 o["carried"] = carry if sid_in is not None else None
                 o["new_sessions"] = sm.get_session_count() - before
-                sid = o.pop("sid", None)
                 o["reused_carried"] = sid is not None and sid == sid_in
                 if sid is not None:
                     sids.append(sid)
                 steps.append(o)
-            out.append({"steps": steps})
-        return out
+                held.append((resp, sid, sess_obj, err))
+        # ... and only now, after the whole sequence, every response is serialised (again) and every session looked up (again)
+        all_sids = [h[1] for h in held]
+        for i, (o, (resp, sid, sess_obj, err)) in enumerate(zip(steps, held)):
+            if err:
+                continue
+            late, _ = _read_answer(resp)
+            s_now = _read_session(handler, sid)
+            late["has_session"] = s_now is not None
+            if s_now is not None:
+                late["session"] = _json_safe(s_now.protocol_version)
+            if sess_obj is not None:
+                late["session_object"] = _json_safe(sess_obj.protocol_version)  # the record handed out right after the step
+            # the session of this step was handed out again by a later step (re-initialisation of one session)
+            late["sid_reissued"] = sid is not None and sid in all_sids[i + 1:]
+            o["late"] = late
+            if "kind" not in o:  # nothing was read right away: the late reading is the only one
+                for k in ("kind", "code", "has_version", "answered", "has_session", "session"):
+                    if k in late:
+                        o[k] = late[k]
+                o["read_late_only"] = True
+                if late["sid_reissued"]:
+                    # a later request was given this very session (re-initialisation): its record now belongs to that request
+                    o["has_session"] = False
+                    o.pop("session", None)
+                    o["session_superseded"] = True
+        return {"steps": steps}
+
+    async def main():
+        return [await one_case(c) for c in cases]
 
     return asyncio.run(main())
 
@@ -544,6 +619,8 @@ async def _client_call(loop, st, c, client):
             obs["outcome"] = "ok"
             obs["v"] = _json_safe(getattr(res, "protocolVersion", None))
             obs["type"] = type(res).__name__
+            if c.get("_hold") is not None:
+                c["_hold"].append((obs, res))  # sequences: the result object is looked at again after the later calls
         except BaseException as ex:  # noqa
             if not isinstance(ex, Exception):
                 raise  # the horizon's cancellation
@@ -579,9 +656,10 @@ async def _client_seq_case(loop, c):
     client = _tracked_client()
     out = []
     shared = {}
+    hold = []
     try:
         for stp in c["steps"]:
-            stp = dict(stp, track=True)
+            stp = dict(stp, track=True, _hold=hold)
             if c.get("share_list") and stp.get("sup") is not None:
                 key = tuple(stp["sup"])
                 stp["_sup_obj"] = shared.setdefault(key, list(stp["sup"]))
@@ -591,6 +669,8 @@ async def _client_seq_case(loop, c):
                 break  # the streams are gone
     finally:
         st.close()
+    for o, res in hold:  # what an earlier call returned must not change because of later calls
+        o["late_v"] = _json_safe(getattr(res, "protocolVersion", None))
     return {"steps": out}
 
 
@@ -709,8 +789,93 @@ async def _handshake_case(loop, c):
     return obs
 
 
+async def _multi_handshake_case(loop, c):
+    """Several real clients against ONE real handler whose server loop first takes every pending initialize request, handles
+    them all, and only then serialises and sends the answers (a queued writer / several connections served by one loop).
+    c = {"clients": [{"sup": .., "pref": ..}, ..]}; one observation per client, as in `_handshake_case`."""
+    import anyio
+    from chuk_mcp.protocol.messages.initialize.send_messages import send_initialize
+    from chuk_mcp.protocol.messages.json_rpc_message import parse_message
+
+    loop.tie = "events"
+    handler = _new_handler()
+    n = len(c["clients"])
+    pipes = [(anyio.create_memory_object_stream(math.inf), anyio.create_memory_object_stream(math.inf)) for _ in range(n)]
+    obs = [{"server": [], "trace": []} for _ in range(n)]
+    sids = [None] * n
+
+    async def server():
+        pending = []
+        for i in range(n):  # take every client's request first ...
+            (_tc_send, _tc_recv), (_fc_send, fc_recv) = pipes[i]
+            m = await fc_recv.receive()
+            w, d = _wire(m)
+            obs[i]["trace"].append(w)
+            pending.append((i, json.dumps(d)))
+        handled = []
+        for i, text in pending:  # ... handle them all ...
+            try:
+                resp, sid = await handler.handle_message(parse_message(json.loads(text)))
+            except Exception as ex:
+                obs[i]["server"].append("raised:" + type(ex).__name__)
+                continue
+            sids[i] = sid
+            handled.append((i, resp))
+        for i, resp in handled:  # ... and only then put the answers on the wire
+            if resp is None:
+                continue
+            rd = resp.model_dump(exclude_none=True)
+            obs[i]["trace"].append({"w": "answered"})
+            res = rd.get("result")
+            obs[i]["answered"] = _json_safe(res.get("protocolVersion")) if isinstance(res, dict) else None
+            await pipes[i][0][0].send(parse_message(json.loads(json.dumps(rd))))
+
+        async def drain(i):
+            async for m in pipes[i][1][1]:
+                w, d = _wire(m)
+                obs[i]["trace"].append(w)
+                try:
+                    await handler.handle_message(parse_message(json.loads(json.dumps(d))), sids[i])
+                except Exception as ex:
+                    obs[i]["server"].append("raised:" + type(ex).__name__)
+
+        async with anyio.create_task_group() as tg2:
+            for i in range(n):
+                tg2.start_soon(drain, i)
+
+    async def client(i):
+        cl = c["clients"][i]
+        kwargs = {"timeout": 2048 * vloop.TICK}
+        if cl.get("sup") is not None:
+            kwargs["supported_versions"] = list(cl["sup"])
+        if cl.get("pref") is not None:
+            kwargs["preferred_version"] = cl["pref"]
+        try:
+            res = await send_initialize(pipes[i][0][1], pipes[i][1][0], **kwargs)
+            obs[i]["outcome"] = "ok"
+            obs[i]["v"] = _json_safe(getattr(res, "protocolVersion", None))
+        except Exception as ex:
+            obs[i].update(_classify(ex))
+        for _ in range(3):
+            await anyio.sleep(0)
+        pipes[i][1][0].close()
+
+    async with anyio.create_task_group() as tg:
+        tg.start_soon(server)
+        for i in range(n):
+            tg.start_soon(client, i)
+    for i in range(n):
+        obs[i]["sessions"] = 1 if sids[i] is not None else 0
+        s_ = handler.session_manager.get_session(sids[i]) if sids[i] is not None else None
+        obs[i]["session"] = _json_safe(s_.protocol_version) if s_ is not None else None
+        for (a, b) in pipes[i]:
+            a.close()
+            b.close()
+    return {"clients": obs}
+
+
 def run_handshake(cases):
-    return _run_on_vloop(_handshake_case, cases)
+    return _run_on_vloop(lambda loop, c: _multi_handshake_case(loop, c) if "clients" in c else _handshake_case(loop, c), cases)
 
 
 def server_supported():
